@@ -38,7 +38,8 @@ def quiet():
 # ---------------------------------------------------------------------------
 
 def synthetic_profile(rng, z_max=None, chems=None, n=None, z_top=0.0):
-    """stably stratified synthetic CTD profile 0..z_max m with optional dissolved-compound columns
+    """stably stratified synthetic CTD profile z_top..z_max m (z_top > 0: a cast that starts below the
+    surface) with optional dissolved-compound columns
     (kg/m^3, positive, decaying or growing with depth); still water (no current)"""
     from tamoc import ambient
     if z_max is None:
@@ -123,6 +124,28 @@ def make_dbm_particle(rng, kind, nmax=4, nmin=1):
     with quiet():
         obj = dbm.FluidParticle(comp, fp_type=fp)
     return obj, yk, dict(kind=kind, composition=comp, fp_type=fp, yk=[float(v) for v in yk])
+
+
+def particle_from_descr(descr):
+    """rebuild the dbm object of a replay file from the `descr` dict written by make_dbm_particle"""
+    from tamoc import dbm
+    with quiet():
+        if descr['kind'] == 'inert':
+            return dbm.InsolubleParticle(descr['isfluid'], descr['iscompressible'], rho_p=descr['rho_p'],
+                                         gamma=descr['gamma'], beta=descr['beta'], co=descr['co'],
+                                         k_bio=descr.get('k_bio', 0.), t_bio=descr.get('t_bio', 0.),
+                                         fp_type=descr.get('fp_type', 1))
+        return dbm.FluidParticle(list(descr['composition']), fp_type=descr['fp_type'])
+
+
+def raise_site(exc):
+    """`module.function` of the innermost tamoc frame of an exception raised by the code under test"""
+    import traceback
+    site = 'unknown'
+    for fr in traceback.extract_tb(exc.__traceback__):
+        if '/tamoc/' in fr.filename:
+            site = '%s.%s' % (fr.filename.rsplit('/', 1)[-1].replace('.py', ''), fr.name)
+    return '%s:%s' % (type(exc).__name__, site)
 
 
 def ambient_state(rng):
@@ -289,6 +312,25 @@ def sbm_stall_case(rng, profiles):
                 t_hyd=0., lag_time=True, delta_t=rng.choice([10., 50., 100.]), obj=obj, yk=yk, prf=prf)
 
 
+def sbm_corpus(profiles):
+    """minimised past findings, replayed first (world-ocean average profile): small ethane(-methane)
+    bubbles that dissolve completely; the last stored step of these runs moves the particle down"""
+    from tamoc import dbm
+    world = [p for p in profiles if p[0] == 'world-ocean'][:1]
+    out = []
+    for comp, yk, z0, de, dT, K, fdis in (
+            (['ethane'], [1.], 1073.9595107110235, 0.0006157736539280521, None, 3.5836754326316314, 1.0262632525415425e-08),
+            (['ethane', 'methane'], [0.6021468549711564, 0.3978531450288436], 349.78607903350627, 0.00082517855740072,
+             3.067618821516381, 4.24643182722902, 1.3430060043788883e-08)):
+        for name, prf in world:
+            with quiet():
+                obj = dbm.FluidParticle(comp, fp_type=0)
+            out.append(dict(profile=name, descr=dict(kind='gas', composition=comp, fp_type=0, yk=yk), z0=z0, x0=0., y0=0.,
+                            de=de, dT=dT, K=K, K_T=1., fdis=fdis, t_hyd=0., lag_time=True, delta_t=100., obj=obj,
+                            yk=np.array(yk), prf=prf))
+    return out
+
+
 class BudgetExceeded(Exception):
     """raised from inside the wrapped profile look-up when a simulation needs more right-hand-side
     evaluations than the scenario budget (VODE occasionally takes 1e4+ tiny steps)"""
@@ -296,17 +338,23 @@ class BudgetExceeded(Exception):
 
 def run_sbm(case, budget=None):
     """run the REAL single_bubble_model on a case; returns the Model object with the extra attributes
-    `_T0_used`, `_k_steps` (number of passes through the loop, parsed from the final progress line the
-    code prints), `_n_reset` (number of heat resets of l.847-850, counted by an instance-level wrapper
-    of profile.get_values: that call is the only one that passes the name as a bare string)"""
-    import re
+    `_T0_used`;
+    `_raw`     : one entry per pass through the loop of calculate_path, recorded by a recording subclass of
+                 scipy.integrate.ode installed for the duration of the run (in this process only): (t, y, ok, K_T)
+                 = r.t, a COPY of r.y as the integrator returned it (before the loop clips masses / resets the
+                 heat), r.successful(), particle.K_T at that moment;
+    `_k_steps` : number of passes (= len(_raw));
+    `_n_reset` : number of heat resets of l.847-850, counted by an instance-level wrapper of profile.get_values
+                 (that call is the only one that passes the name as a bare string);
+    `_n_rhs`   : number of right-hand-side evaluations.
+    Exceptions of the code under test propagate to the caller (BudgetExceeded is ours)."""
     from tamoc import single_bubble_model
     prf = case['prf']
     buf = io.StringIO()
     count = [0]
     orig = prf.get_values
-
     ncalls = [0]
+    raw = []
 
     def get_values(z, names):
         if isinstance(names, str) and names == 'temperature':
@@ -315,7 +363,18 @@ def run_sbm(case, budget=None):
         if budget is not None and ncalls[0] > 3 * budget:
             raise BudgetExceeded()
         return orig(z, names)
+    imod = single_bubble_model.integrate
+    orig_ode = imod.ode
+
+    class RecordingOde(orig_ode):
+        def integrate(self, t, step=False, relax=False):
+            res = orig_ode.integrate(self, t, step, relax)
+            part = self.f_params[1] if len(self.f_params) > 1 else None
+            raw.append((float(self.t), np.array(self.y, dtype=float, copy=True), bool(self.successful()),
+                        float(part.K_T) if part is not None else float('nan')))
+            return res
     prf.get_values = get_values
+    imod.ode = RecordingOde
     try:
         with warnings.catch_warnings():
             warnings.simplefilter('ignore')
@@ -330,9 +389,10 @@ def run_sbm(case, budget=None):
                                case['t_hyd'], case['lag_time'], case['delta_t'])
     finally:
         del prf.get_values
+        imod.ode = orig_ode
     model._T0_used = T0
-    ks = re.findall(r'k: (\d+)', buf.getvalue())
-    model._k_steps = int(ks[-1]) if ks else None
+    model._raw = raw
+    model._k_steps = len(raw)
     model._n_reset = count[0]
     model._n_rhs = ncalls[0] // 3
     return model
